@@ -130,6 +130,14 @@ static U32 ZSTD_scaleStats(unsigned* table, U32 lastEltIndex, U32 logTarget)
     return ZSTD_downscaleStats(table, lastEltIndex, ZSTD_highbit32(factor), base_1guaranteed);
 }
 
+/* ZSTD_fseCTable_maxSymbol() :
+ * largest symbol described by an FSE compression table (stored in its header by FSE_buildCTable_wksp()).
+ * symbolTT[] has no valid entry beyond it. */
+static unsigned ZSTD_fseCTable_maxSymbol(const FSE_CTable* ct)
+{
+    return MEM_read16((const BYTE*)ct + 2);   /* tableLog, then maxSymbolValue, as two U16 */
+}
+
 /* ZSTD_rescaleFreqs() :
  * if first block (detected by optPtr->litLengthSum == 0) : init statistics
  *    take hints from dictionary if there is one
@@ -168,8 +176,8 @@ ZSTD_rescaleFreqs(optState_t* const optPtr,
                 for (lit=0; lit<=MaxLit; lit++) {
                     U32 const scaleLog = 11;   /* scale to 2K */
                     U32 const bitCost = HUF_getNbBitsFromCTable(optPtr->symbolCosts->huf.CTable, lit);
-                    assert(bitCost <= scaleLog);
-                    optPtr->litFreq[lit] = bitCost ? 1 << (scaleLog-bitCost) : 1 /*minimum to calculate cost*/;
+                    /* a dictionary's Huffman table may use codes longer than scaleLog bits */
+                    optPtr->litFreq[lit] = (bitCost && bitCost <= scaleLog) ? 1 << (scaleLog-bitCost) : 1 /*minimum to calculate cost*/;
                     optPtr->litSum += optPtr->litFreq[lit];
             }   }
 
@@ -179,9 +187,9 @@ ZSTD_rescaleFreqs(optState_t* const optPtr,
                 optPtr->litLengthSum = 0;
                 for (ll=0; ll<=MaxLL; ll++) {
                     U32 const scaleLog = 10;   /* scale to 1K */
-                    U32 const bitCost = FSE_getMaxNbBits(llstate.symbolTT, ll);
-                    assert(bitCost < scaleLog);
-                    optPtr->litLengthFreq[ll] = bitCost ? 1 << (scaleLog-bitCost) : 1 /*minimum to calculate cost*/;
+                    /* a dictionary table may cover fewer symbols than MaxLL : the others have no entry */
+                    U32 const bitCost = (ll <= ZSTD_fseCTable_maxSymbol(optPtr->symbolCosts->fse.litlengthCTable)) ? FSE_getMaxNbBits(llstate.symbolTT, ll) : scaleLog;
+                    optPtr->litLengthFreq[ll] = (bitCost && bitCost < scaleLog) ? 1 << (scaleLog-bitCost) : 1 /*minimum to calculate cost*/;
                     optPtr->litLengthSum += optPtr->litLengthFreq[ll];
             }   }
 
@@ -191,9 +199,8 @@ ZSTD_rescaleFreqs(optState_t* const optPtr,
                 optPtr->matchLengthSum = 0;
                 for (ml=0; ml<=MaxML; ml++) {
                     U32 const scaleLog = 10;
-                    U32 const bitCost = FSE_getMaxNbBits(mlstate.symbolTT, ml);
-                    assert(bitCost < scaleLog);
-                    optPtr->matchLengthFreq[ml] = bitCost ? 1 << (scaleLog-bitCost) : 1 /*minimum to calculate cost*/;
+                    U32 const bitCost = (ml <= ZSTD_fseCTable_maxSymbol(optPtr->symbolCosts->fse.matchlengthCTable)) ? FSE_getMaxNbBits(mlstate.symbolTT, ml) : scaleLog;
+                    optPtr->matchLengthFreq[ml] = (bitCost && bitCost < scaleLog) ? 1 << (scaleLog-bitCost) : 1 /*minimum to calculate cost*/;
                     optPtr->matchLengthSum += optPtr->matchLengthFreq[ml];
             }   }
 
@@ -203,9 +210,8 @@ ZSTD_rescaleFreqs(optState_t* const optPtr,
                 optPtr->offCodeSum = 0;
                 for (of=0; of<=MaxOff; of++) {
                     U32 const scaleLog = 10;
-                    U32 const bitCost = FSE_getMaxNbBits(ofstate.symbolTT, of);
-                    assert(bitCost < scaleLog);
-                    optPtr->offCodeFreq[of] = bitCost ? 1 << (scaleLog-bitCost) : 1 /*minimum to calculate cost*/;
+                    U32 const bitCost = (of <= ZSTD_fseCTable_maxSymbol(optPtr->symbolCosts->fse.offcodeCTable)) ? FSE_getMaxNbBits(ofstate.symbolTT, of) : scaleLog;
+                    optPtr->offCodeFreq[of] = (bitCost && bitCost < scaleLog) ? 1 << (scaleLog-bitCost) : 1 /*minimum to calculate cost*/;
                     optPtr->offCodeSum += optPtr->offCodeFreq[of];
             }   }
 
